@@ -91,20 +91,24 @@ CLAIMS["C05"] = dict(
 
 CLAIMS["C04"] = dict(
     category="other",
-    text=("Decides: (D1) augmented_lagrange_solve returns normally only behind norm(total_residual(x)) < alSettings.tol on the "
-          "returned x (the AL tolerance parameter, computed after the sub-step of the same iteration); total_residual is, link "
-          "by link, hstack(grad_x of the augmented Lagrangian, Fischer-Burmeister(constraint, multiplier)) and the FB formula "
-          "has the NCP zero set; (D2) the last writer of .lam on every loop path is solve_sub_step's maximum(.,0) write "
-          "(line-search writes are followed by it or restore a saved copy); (D3) .kappa is written in the solve cone only as "
-          "kappa.at[m].set(penalty_scaling*kappa[m]) on the current penalties, reset_kappa only before the solve; (D4) exact "
-          "algebraic identities: the penalty arms are C0/C1 on the switch l = k*c and the first-order update is -d(penalty)/dc. "
-          "AlSolver.get_settings puts every parameter into the field of the same name (so penalty_scaling is the growth factor that is "
-          "read); degree typing in the diagonal scaling s of the bound-constrained front end: the initial iterate is s*x0, the user "
-          "objective sees xBar/s, initial multipliers have degree -1, every get_* accessor returns a degree-0 (physical) quantity "
-          "(multipliers are lam*s), inherited evaluators receive s*x, and bound_constrained_solve returns xBar/s. "
-          "Under the recorded assumptions penalty_scaling >= 1, use_newton_only False. KKT residual values are NOT decided."),
-    design_ref="DESIGN.md section 4, C04",
-    technique="static analysis: guarded-return dominators, who-may-write + last-writer analysis over the call-graph cone, exact rational-function identities (normal forms) for the penalty arms, homogeneity-degree typing of the variable scaling, named-field wiring of the settings factory")
+    text=("Decided by interpreting the augmented-Lagrangian driver, the objective classes and the bound-constrained front end on symbolic inputs "
+          "(rules/C04_sym.py: exact rational normal forms over interned atoms; where / c*a+(1-c)*b / merged branches / np.select become one "
+          "indicator form, norm / sqrt(v@v) / sum(v**2) one term, .at[m].set / .multiply / where one term, hstack sliced by symbolic sizes, "
+          "derivatives as D[f; argnum](args) terms, user functions uninterpreted; records, closures, partial, repository classes with "
+          "properties; mergeable ifs become indicator values, otherwise the path forks; loops are generalised by a fixpoint over the cells written "
+          "in the body; a sampler builds witness points): (D1/T1) on every returning path total_residual(x_ret), evaluated in the state at the "
+          "return, is bounded by a decided comparison of the path with tol - B >= 0, and objective.p is the argument p; (D1/T5) total_residual(x) "
+          "is the stack of D_0[L](x, p, lam, kappa) and FB(G(x,p), lam, k>0) with L checked extensionally against create_augmented_lagrangian and "
+          "the NCP zero set decided by exact identity plus sample points; (D2 / D3 / D4) at every back edge or return of the loop that contains "
+          "the sub-problem solve: lam_end >= 0, kappa_end - kappa_head >= 0, lam_end = max(lam - kappa G(x_sub), 0), rejected second-order trials "
+          "restore the multipliers of the loop head; the penalty arms are C0/C1 on the switching surface (where and max form), the "
+          "preconditioner stiffness equals d2W/dc2; penalties at the return of bound_constrained_solve are those at the start of the AL solve; "
+          "settings constructors put each parameter into the field of its own name; (D5) homogeneity degrees of the diagonal scaling computed on "
+          "the interpreted values. D2-D4 are stated for iterations with use_newton_only false; a negated comparison is read as the opposite "
+          "comparison (NaN ignored, recorded as an assumption). REFUTED only from an exact algebraic inequality, a witness point, or a path whose "
+          "decided tests are all understood; everything else is UNDECIDED."),
+    design_ref="DESIGN.md section 4, C04 and section 11.8.4",
+    technique="static analysis: symbolic interpretation into exact rational normal forms with indicator forms, path forking, loop fixpoints over written cells, witness sampling for refutation")
 
 CLAIMS["C19"] = dict(
     category="other",
